@@ -397,6 +397,12 @@ impl Accept {
     }
 
     fn accept(&mut self, sockets: &mut [ServerSocketInfo], token: usize) {
+        // A listener event can sit in the same poll batch behind the waker event whose `Pause` has
+        // just been processed (the listener is deregistered by then): accept nothing until `Resume`.
+        if self.paused {
+            return;
+        }
+
         while self.avail.available() {
             let info = &mut sockets[token];
 
